@@ -148,9 +148,13 @@ CLAIMS["C05"] = _b(
     "is still there and lists the channel, and what a connection lists is an end it has claimed "
     "(claimed_end_is_listed_by_its_connected_owner, connection_lists_only_ends_it_claimed), so a disconnect closes exactly the "
     "claimed ends of that connection. The broker's low-water constant is regenerated from channel.rs. "
-    "The client-side Sender/Receiver of the aldrin crate are not modelled (partial on that clause): they are exercised by sys scenario B "
-    "(real clients; items carry sequence numbers and must arrive in order; after closing rounds of send / take / poll receiver_closed a "
-    "sender whose receiver is alive and has taken everything must be allowed to send).", "DESIGN.md section 6 C05")
+    "Client level (client_channel_all_schedules): the capacity bookkeeping of the real Sender / Receiver composed with the broker's "
+    "Channel, for every capacity 1..u32::MAX and every schedule of send-if-ready / take / poll receiver_closed / poll send_ready with the "
+    "system at rest in between: no debug_assert! fails, the broker refuses no item and no grant, waiting items = sent - taken, the three "
+    "parties' counts agree, a sender whose receiver has taken everything may send; tied to two real clients on a real broker by the chan "
+    "harness (observations and the private capacity / cur_capacity fields). Partial: client-side schedules in which operations overtake "
+    "messages in flight and the client-side claim/close paths are only exercised by sys scenario B (real clients under a PRNG schedule; "
+    "in-order items; a sender whose receiver is alive and has taken everything must be allowed to send).", "DESIGN.md section 6 C05 and 10.2")
 CLAIMS["C09"] = _b(
     "Machine-checked proof (Lean 4) of an inductive invariant over ALL histories of broker events, including every way and point of "
     "ending a connection: the channel and bus-listener gauges equal the sizes of the maps, map keys are unique and below the cookie "
